@@ -32,7 +32,7 @@ ASSUMPTIONS = [
 FLOORS = {"quick": {"histories": 3000, "copies_checked": 6000}, "thorough": {"histories": 120000, "copies_checked": 250000}}
 ANCHORS = ['Message.__copy__', 'Message.__deepcopy__', 'Message.__reduce__', 'Message.to_pydict', 'Message.to_dict', 'Message.__getattribute__']
 CONTRACTS = []
-RECIPES = ("ctor", "inplace", "parse", "parse-unknown", "from_dict")
+RECIPES = ("ctor", "inplace", "parse", "parse-unknown", "from_dict", "ctor-then-none")
 
 
 # google.protobuf.Struct / Value / ListValue have hand-written to_dict / from_dict in the bundled library: observers of
@@ -110,6 +110,15 @@ def build(b, bp, ref, mi, tree, recipe, unk: bytes):
     cls = b.bp_class(mi.full_name)
     if recipe in ("ctor", "inplace"):
         return bp.make(mi, tree, recipe)
+    if recipe == "ctor-then-none":
+        # every proto3-optional field is cleared again by ASSIGNING None after construction (not the same internal state as
+        # never having passed it: the assignment goes through the oneof-like bookkeeping of optional fields)
+        m = bp.make(mi, tree, "ctor")
+        names = attr_names(cls)
+        for fi in mi.fields:
+            if fi.label == "optional":
+                setattr(m, names[fi.number], None)
+        return m
     if recipe == "parse":
         return cls().parse(ref.make(mi, tree).SerializeToString())
     if recipe == "parse-unknown":
